@@ -306,7 +306,15 @@ impl Controller for Ctl {
     fn dropped(&self, id: usize) {
         let mut inner = self.inner.lock().unwrap();
         inner.tasks[id].state = TState::Done;
-        if inner.selected == Some(id) && inner.running != Some(id) {
+        if inner.running == Some(id) {
+            // The task panicked during its poll (after_poll was never called): the step is over.
+            inner.selected = None;
+            inner.running = None;
+            inner.step += 1;
+            if inner.step >= inner.horizon {
+                inner.frozen = true;
+            }
+        } else if inner.selected == Some(id) {
             // Selected but never polled: the step did not happen.
             inner.selected = None;
             inner.trace.pop();
